@@ -347,6 +347,20 @@ def run_check(prop, tier, seed, jobs, replay=None):
     ctx = Ctx(prop, tier, seed, jobs)
     t0 = time.time()
     status = EXIT_OK
+    # one scratch root per run, inherited by every worker (mc.util.scratch_root) and removed by the parent:
+    # pool workers end through os._exit, so their own atexit clean-up never runs.
+    import shutil
+    import tempfile
+
+    run_tmp = tempfile.mkdtemp(prefix=f"jsa_run_{prop}_", dir=os.environ.get("VERIF_TMP", "/tmp"))
+    os.environ["VERIF_TMP"] = run_tmp
+    try:
+        return _run_check(mod, modname, meta, ctx, prop, tier, t0, status)
+    finally:
+        shutil.rmtree(run_tmp, ignore_errors=True)
+
+
+def _run_check(mod, modname, meta, ctx, prop, tier, t0, status):
     try:
         bind_repo()
         known = load_known(prop)
